@@ -385,6 +385,9 @@ def check(F, rep, tier):
         for bi, t in g.calls():
             c = (mir.callee(t) or "").rsplit("::", 1)[-1]
             if c not in ("unwrap_or", "unwrap_or_default", "unwrap_or_else", "map_or", "map_or_else") or not t[2] or not from_length(t[2][0]): continue
+            # the receiver itself must be the converted argument (`..get("length").and_then(as_u64)`), not something computed from the length
+            direct = {(mir.callee(o.fn.blocks[o.data]["t"]) or "").rsplit("::", 1)[-1] for o in mir.trace_op(g, t[2][0], transparent=()) if o.kind == "call"}
+            if not direct or not direct <= {"and_then", "as_u64", "as_i64", "as_f64", "map", "ok", "and", "filter_map"}: continue
             conv = {(mir.callee(g.blocks[int(d)]["t"]) or "").rsplit("::", 1)[-1] for k, d in mir.deep_origins(g, t[2][0], stop=()) if k == "call" and d.isdigit() and g.blocks[int(d)]["t"][0] == "call"}
             conv |= {(mir.callee(t3) or "").rsplit("::", 1)[-1] for c_ in mir.closures_in(F, g) for b3, t3 in c_.calls()}
             if conv & {"as_u64", "as_i64", "as_f64", "as_str", "parse"}: conflated = "%s bb%d line %s (%s after %s)" % (g.where(), bi, g.blocks[bi]["line"], c, sorted(conv & {"as_u64", "as_i64", "as_f64", "as_str", "parse", "and_then"}))
